@@ -249,6 +249,9 @@ def extern_global(ex, name, g, m):
             else:
                 p.objs[r.base] = {'kind': name, 'region': r}
         return r
+    if name.startswith('ffi_type_'):
+        # libffi's type descriptors: only their addresses are used by the code under test
+        return mem.alloc(24, '@' + name, 'global', fill=0)
     raise Unsupported('external global @%s has no model' % name)
 
 
